@@ -19,7 +19,7 @@ func init() {
 			"R3 dispatch agreement — the first-token set of parseDDL / parseDMLInternal / the query path is included in the guard under which parseStatementInternal routes to it, and the specific entry points reach the same internal productions as ParseStatement. " +
 			"R4 the list entry points hand the generic parseStatements the same production their single-statement sibling calls. " +
 			"Decides: contradictions between a guard and what it guards. Does not decide: acceptance of every sentence of the reference grammar.",
-		Rules: []ruleFn{ruleC08R1, ruleC08R2, ruleC08R3, ruleC08R4, ruleC08R5, ruleC08R6, ruleC08R7, ruleC11R4, ruleC16R3, ruleC08R8},
+		Rules: []ruleFn{ruleC08R1, ruleC08R2, ruleC08R3, ruleC08R4, ruleC08R5, ruleC08R6, ruleC08R7, ruleC11R4, ruleC16R3, ruleC08R8, ruleC14R3, ruleC08R9},
 	})
 }
 
@@ -845,5 +845,90 @@ func ruleC08R8(w *World, r *Report) {
 		r.bad(rule, construct, w.pos(la.Pos()), fmt.Sprintf("'(' followed by %v is answered \"sub-query\" at once, but %v can also start an expression: the parenthesised expression / IN list that begins with it is sent to the query parser and rejected", atoms, clash))
 	default:
 		r.ok(rule, construct, w.pos(la.Pos()), fmt.Sprintf("direct answers %v; none can start an expression", atoms))
+	}
+}
+
+// ruleC08R9: a sentence is accepted or rejected on its token kinds. The parser looks at the spelling of a token only
+// to recognise a pseudo-keyword (case-insensitively, C16/R1) or to copy it into the tree; a raise that depends on the
+// spelling in any other way (a range check on an integer literal, a length limit on a name) rejects sentences of the
+// grammar — and usually sees only part of the picture: the sign of -9223372036854775808 is a separate token.
+func ruleC08R9(w *World, r *Report) {
+	const rule = "C08/R9"
+	r.rule(rule, "no branch of the parser that leads straight to a raise depends on the spelling (Token.Raw / Token.AsString, or a string field of an ast node filled from it) of a token other than through char.EqualFold: acceptance is a matter of token kinds and pseudo-keywords", 1)
+	eq := w.fn(w.Char, "EqualFold")
+	if eq == nil {
+		r.errorf("char.EqualFold not found")
+		return
+	}
+	w.NoReturn()
+	var srcs []ssa.Value
+	for _, fn := range w.ModFns {
+		if fnPkgPath(fn) != modRoot || fn.Blocks == nil {
+			continue
+		}
+		if fn.Signature.Recv() != nil && w.isLexerPtr(fn.Signature.Recv().Type()) {
+			continue
+		}
+		for _, b := range fn.Blocks {
+			for _, in := range b.Instrs {
+				v, ok := in.(ssa.Value)
+				if !ok {
+					continue
+				}
+				if ld, isL := isLoad(v); isL {
+					if fa, ok := ld.(*ssa.FieldAddr); ok {
+						if n := fieldAddrStruct(fa); n != nil && n.Obj().Pkg() != nil && n.Obj().Pkg().Path() == modRoot+"/token" && n.Obj().Name() == "Token" {
+							switch fieldAddrName(fa) {
+							case "Raw", "AsString":
+								srcs = append(srcs, v)
+							}
+						}
+					}
+				}
+			}
+		}
+	}
+	if len(srcs) < 10 {
+		r.errorf("only %d reads of Token.Raw/AsString found in the parser", len(srcs))
+		return
+	}
+	sl := w.forwardSlice(srcs, func(f *ssa.Function) bool { return f == eq })
+	raiseOnly := func(b *ssa.BasicBlock) bool {
+		for steps := 0; steps < 3 && b != nil; steps++ {
+			if w.deadAt(b) >= 0 {
+				return true
+			}
+			if _, ok := b.Instrs[len(b.Instrs)-1].(*ssa.Panic); ok {
+				return true
+			}
+			if len(b.Succs) != 1 || len(b.Instrs) > 6 {
+				return false
+			}
+			b = b.Succs[0]
+		}
+		return false
+	}
+	nbad, nIf := 0, 0
+	for v := range sl {
+		for _, u := range referrers(v) {
+			iff, ok := u.(*ssa.If)
+			if !ok {
+				continue
+			}
+			fn := iff.Parent()
+			if fnPkgPath(fn) != modRoot || (fn.Signature.Recv() != nil && w.isLexerPtr(fn.Signature.Recv().Type())) {
+				continue
+			}
+			nIf++
+			b := iff.Block()
+			if raiseOnly(b.Succs[0]) || raiseOnly(b.Succs[1]) {
+				nbad++
+				r.bad(rule, fmt.Sprintf("spelling-dependent raise in %s", funcName(fn)), w.pos(lastPos(b)), "a branch on a value computed from a token's spelling leads straight to a raise: the sentence is rejected for what a token says, not for what kind of token it is")
+			}
+		}
+	}
+	r.count("branches on spelling-derived values in the parser", nIf)
+	if nbad == 0 {
+		r.ok(rule, "spelling-dependent raises", "-", fmt.Sprintf("%d spelling reads followed, %d branches depend on them, none leads straight to a raise", len(srcs), nIf))
 	}
 }
